@@ -347,6 +347,37 @@ def typed():
          D1: lambda g: g(C1) * 2})
 
 
+def numtext():
+    """An input that switches between a number and the text that spells
+    it; the formulas tell them apart."""
+    A1, A2, B1, C1, D1 = (S + x for x in ('A1', 'A2', 'B1', 'C1', 'D1'))
+
+    def isnum(v):
+        return isinstance(v, (int, float)) and not isinstance(v, bool)
+    return ModelSpec(
+        'numtext',
+        {A1: 5, A2: 1, B1: '=ISTEXT(A1)', C1: '=IF(ISNUMBER(A1),A1*2,-1)',
+         D1: '=COUNT(A1:A2)+IF(B1,10,0)'},
+        [A1], [12, '12', 'abc', 12.5, '12.5'],
+        {B1: lambda g: isinstance(g(A1), str),
+         C1: lambda g: g(A1) * 2 if isnum(g(A1)) else -1,
+         D1: lambda g: (2 if isnum(g(A1)) else 1) +
+         (10 if isinstance(g(A1), str) else 0)})
+
+
+def deepchain():
+    """A chain longer than the interpreter's stack follows (under the default
+    recursion limit): whatever evaluating its end gives, a fresh model with
+    the same inputs gives the same, also after an input has changed."""
+    cells = {S + 'A1': 1}
+    for i in range(2, 401):
+        cells[S + 'A%d' % i] = '=A%d+1' % (i - 1)
+    spec = ModelSpec('deepchain', cells, [S + 'A1'], [10, 0], {},
+                     eval_cells=[S + 'A400', S + 'A5', S + 'A50'])
+    spec.differential = True
+    return spec
+
+
 def errrange():
     """An error value inside a summed range that comes and goes with an
     input; the error is inspected two levels up."""
@@ -437,10 +468,10 @@ def wholerow():
 
 
 # (wholerow is expensive - 16 384 cells a model: its own, shallower, plan)
-COSTLY = [wholerow]
+COSTLY = [wholerow, deepchain]
 ALL = [chain, diamond, sumrange, formularange, crosssheet, textmodel, named,
        branch, lookup, errrange, typed, guarded, named_extracted, othersheet,
-       logic]
+       logic, numtext]
 ALL_C05 = ALL + [twodim, longrange, criteria, overflow, raising, spill,
                  ordering, xirr]
 
